@@ -1,3 +1,5 @@
 import GldapModel.Props.C09
 #print axioms Server.C09_unique
 #print axioms Server.C09_current
+#print axioms Server.C09_int64
+#print axioms Server.wrapInt_faithful
